@@ -563,16 +563,19 @@ impl Scenario for C25 {
                     heap_limit: Some(1 + rng.below(6000)),
                     ghost_atoms: 0,
                     ghost_pairs: 0,
+                    junk_atoms: 0,
                 },
                 1 => AllocCfg {
                     heap_limit: None,
                     ghost_atoms: 62_500_000 - 2 - rng.below(12),
                     ghost_pairs: 0,
+                    junk_atoms: 0,
                 },
                 2 => AllocCfg {
                     heap_limit: None,
                     ghost_atoms: 0,
                     ghost_pairs: 62_500_000 - rng.below(12),
+                    junk_atoms: 0,
                 },
                 _ => AllocCfg::unlimited(),
             };
